@@ -301,7 +301,7 @@ func ruleC04(c *Ctx) {
 			} else {
 				i := li.IndexVal
 				nStops := li.Bound
-				R.Check(nStops.Key() == "extract:4(call:DecodeGradient($param:rgba))", key+"#stops.count", pos, "loop over NSTOPS of the gradient colour", shortKey(nStops))
+				R.Check(stripIntConv(nStops).Key() == "extract:4(call:DecodeGradient($param:rgba))", key+"#stops.count", pos, "loop over NSTOPS of the gradient colour", shortKey(nStops))
 				dg := func(k int) *sym.Term {
 					return sym.Extract(sym.Call("DecodeGradient", nil, sym.Atom("param:rgba", nil)), k, u8t)
 				}
